@@ -1,6 +1,6 @@
 (* Props/C20.v — property C20: tracing logs are attributed to the scenario and step that emitted them. *)
 From CV Require Import Model.Base Model.Tracing Model.TracingStart Proofs.BaseP Proofs.TracingP.
-From CV Require Proofs.TracingP2.
+From CV Require Proofs.TracingP2 Proofs.TracingP3.
 
 (* for every interleaving of step tasks and forwarder (every label list): when a step's result event is emitted,
    every log sent inside its span has already been forwarded, to the scenario it was emitted for *)
@@ -75,3 +75,21 @@ Theorem C20_K20a_after_hook_logs_precede_started_refuted :
     In (LBase (TEmit sc m x)) ls2 /\ out2 = a ++ OBase (TLog sc m) :: b /\ ~ In (OStart x) a /\ In (OStart x) b.
 Proof. exact TracingP2.after_hook_logs_precede_started_refuted. Qed.
 Print Assumptions C20_K20a_after_hook_logs_precede_started_refuted.
+
+(* LIVENESS OF THE SPAN-CLOSE HANDSHAKE ("no such log is lost", "the step's result follows"): for every reachable state,
+   a span that has been closed and subscribed to — in either order: a span may outlive its future — IS released after
+   at most one forwarder run per pending close notice plus one; the forwarder runs always succeed, and in the state
+   reached the waiting task can emit its result *)
+Theorem C20_waiter_is_released :
+  forall ls s out x s' o,
+    texec tinit ls = Some (s, out) ->
+    memN x (t_closed s) = true ->
+    In (TSub x) ls ->
+    texec s (repeat TFwd (S (length (t_closes s)))) = Some (s', o) ->
+    memN x (t_released s') = true.
+Proof. exact TracingP3.waiter_released. Qed.
+Print Assumptions C20_waiter_is_released.
+
+Theorem C20_forwarder_runs_never_block :
+  forall k s, exists s' o, texec s (repeat TFwd k) = Some (s', o).
+Proof. exact TracingP3.texec_fwd_total. Qed.
